@@ -57,6 +57,9 @@ func WriteAll(pkg *gogen.Package) (texts map[string]string, err error) {
 }
 
 func isUnused(msg string) bool {
+	if strings.HasPrefix(msg, "label ") {
+		return false
+	}
 	return strings.Contains(msg, "declared and not used") ||
 		strings.Contains(msg, "imported and not used") ||
 		(strings.Contains(msg, "imported as") && strings.Contains(msg, "and not used"))
